@@ -1,5 +1,7 @@
 (* C09 — stream discipline: position independence. *)
+From VF Require Import Model.Compiler.
 From VF Require Import Model.Reader Model.Writer Proofs.ReaderProps Proofs.ShiftProps Gen.GeneratedOk.
+From VF Require Proofs.CompilerProps Proofs.CompiledRoundTrip.
 Open Scope string_scope. Open Scope list_scope. Open Scope Z_scope.
 
 (* For every type (structures, unions, all four array forms, bit fields, pointers; aligned structures when the start offset is a multiple of
@@ -24,6 +26,15 @@ Theorem bytes_after_irrelevant : forall c fuel t, simple t = true ->
   forall s1 s2 pos ctx r, read_ty c fuel t s1 pos ctx = Ok r -> read_ty c fuel t (s1 ++ s2) pos ctx = Ok r.
 Proof. exact read_ty_ext. Qed.
 
+(* the COMPILED reader (C03's theorem composed with position_independent): the generated statements give at position |pre| + pos of pre ++ s what
+   they give at pos of s, shifted by |pre| - the same value or both fail *)
+Theorem compiled_reader_position_independent : forall pre c fuel nm fs p,
+  Forall (fun f => f_off f = None /\ CompilerProps.cls' c fuel f) fs -> NoDup (map f_name fs) -> CompilerProps.bsize c fs <= 9223372036854775807 -> compile_plan c false fs = Ok p ->
+  shift_ok pre c (TStruct nm fs false) = true ->
+  forall s pos, 0 <= pos -> CompilerProps.req (read_compiled c fuel false fs (pre ++ s) (zlen pre + pos)) (shift (zlen pre) (read_compiled c fuel false fs s pos)).
+Proof. exact CompiledRoundTrip.compiled_position_independent. Qed.
+
+Print Assumptions compiled_reader_position_independent.
 Print Assumptions position_independent.
 Print Assumptions bytes_before_p_irrelevant.
 Print Assumptions entry_point_position_independent.
